@@ -2201,6 +2201,35 @@ class Engine:
                 break
             if r == z3.sat:
                 r = z3.unknown       # refuted only with a subset of the axioms: not conclusive
+        if r == z3.unknown and not trivially_false and not getattr(self, "no_last_resort", False) and getattr(self, "_last_resort_used", 0) < 2:
+            self._last_resort_used = getattr(self, "_last_resort_used", 0) + 1          # at most two obligations per engine (function) get this treatment
+            # last resort before an obligation is reported as undischarged: the full axiom set again with six times the resource budget, a generous wall clock and other
+            # random seeds (z3's quantifier instantiation is sensitive to both; a proof that exists in 2 s on an idle machine was once lost on a machine running three thorough
+            # suites and a regression at the same time).  Only obligations that would otherwise fail get here, so a clean run pays nothing.
+            for seed_ in (0, 7):
+                for opts in ([o_ for o_ in self.solver_opts if "_timeout_ms" not in o_] or list(self.solver_opts[-1:]))[:2]:
+                    s = z3.Solver()
+                    budget = int(self.timeout_ms)
+                    s.set("rlimit", budget * self.RL_PER_MS * 6)
+                    s.set("timeout", budget * 12)
+                    for k_, v_ in opts.items():
+                        if not k_.startswith("_"):
+                            s.set(k_, v_)
+                    s.set("random_seed", seed_)
+                    for a in (self.axioms if ob.axioms is None else ob.axioms):
+                        s.add(a)
+                    for a in self.label_axioms():
+                        s.add(a)
+                    for a in extra_axioms:
+                        s.add(a)
+                    for c in ob.pc:
+                        s.add(c)
+                    s.add(z3.Not(ob.goal))
+                    r = s.check()
+                    if r != z3.unknown:
+                        break
+                if r != z3.unknown:
+                    break
         ob.backend = "z3-%s" % z3.get_version_string()
         if r == z3.unsat:
             ob.status = "proved"
